@@ -121,9 +121,6 @@ func c19History(L, nSenders, nNonces int) {
 	g := &c19Ghost{}
 	for step := 0; step < L; step++ {
 		op := sym.Choice("op", 3)
-		if step == L-1 {
-			op = 2
-		}
 		switch op {
 		case 0: // insert a tx whose (sender, sequence) is not pending
 			s := sym.Choice("sender", nSenders)
